@@ -78,6 +78,12 @@ def scenario(rng):
             # other user modes come and go, +i stays
             hid += [("inv", l) for l in rng.choice([["MODE inv +w", "MODE inv -w"], ["MODE inv +w-w"], ["MODE inv +wi", "MODE inv -w"],
                                                     ["MODE inv -w+w", "MODE inv -w"], ["MODE inv +i", "MODE inv -o-O"]])]
+        if rng.random() < 0.35:
+            # an invisible server operator is as invisible as anybody (the operator entry is configured in both worlds)
+            sc["oper"] = True
+            hid.append(("inv", rng.choice(["OPER root rootpw", "OPER root rootpw", "OPER local localpw"])))
+            if rng.random() < 0.3:
+                hid.append(("inv", "MODE inv +w"))
         if rng.random() < 0.4:
             hid.append(("inv", "AWAY :hidden away"))
         if rng.random() < 0.3:
@@ -132,6 +138,9 @@ REAL = {"inv": "Ivy Invisible"}
 
 def run_world(binary, hooks, sc, hidden):
     cfg = dict(sc["cfg1"] if hidden else sc["cfg0"])
+    if sc.get("oper"):
+        cfg["operators"] = [{"name": "root", "password": sut.password_hash(binary, "rootpw")},
+                            {"name": "local", "password": sut.password_hash(binary, "localpw")}]
     with sut.Server(binary, cfg, hooks=hooks) as srv:
         w = twin.ScriptWorld(srv)
         try:
